@@ -146,6 +146,8 @@ def generate(rnd, tier, scale):
                 s = {"t": "h", "items": gen.rand_h(rnd, 3, "int", allow_zero_total=rnd.random() < 0.06)}
             if via == "pforeach" and s["t"] == "p":
                 s["which"] = None
+            if via in ("expandable", "foreach") and s["t"] == "p" and s.get("which") is not None:
+                s["which_form"] = rnd.choice(["tuple", "tuple", "list", "iter", "gen"])
             if via in ("expandable", "foreach") and s["t"] == "h" and rnd.random() < 0.2:
                 s["raw"] = rnd.choice(["map", "hable"])  # sources that are not H / P: _source_to_h_or_p_or_p_with_selection
             sources.append(s)
@@ -167,11 +169,14 @@ def generate(rnd, tier, scale):
                 calls=[[0, 0, ["i", -1]]],
             )
             continue
+        srcs = list(range(ns))
+        if rnd.random() < 0.2 and not any(s.get("which_form") in ("iter", "gen") for s in sources):
+            srcs.append(rnd.randrange(ns))  # the same object passed for two parameters: two independent sources
         yield dict(
             k="prog",
             via=via,
             sources=sources,
-            srclists=[{"srcs": list(range(ns)), "nkw": rnd.randint(0, ns)}],
+            srclists=[{"srcs": srcs, "nkw": rnd.randint(0, len(srcs))}],
             fns=[{"sentinel": [["i:0", 1]], "shape": 0, "acts": acts}],
             calls=[[0, 0, None]],
         )
